@@ -17,12 +17,30 @@ Remap, Distribute, RemovePage) that does not panic: the page table is injective 
 every mapped frame lies in the range of a device whose memory state holds it inside an allocated block and outside
 every free block. -/
 theorem driver_no_alias_any_device {σ : Type} (I : Iface σ) (devs : List Dev) (S : Spec I devs)
-    (s0 s : GState σ) (L0 : Nat → List Nat) (ops : List DOp) (h0 : GInv S s0 L0) (hrun : run I s0 ops = .ok s) :
+    (s0 s : GState σ) (L0 : Nat → List Nat) (ops : List DOp) (h0 : GInv S s0 L0) (t0 : Tight devs s0 L0 [])
+    (hrun : run I s0 ops = .ok s) :
     (s.pt.map (·.paddr)).Nodup ∧
     ∀ e ∈ s.pt, ∃ d m, devOf s.devs e.paddr = some d ∧ s.mem[d]? = some m ∧ S.Held m e.paddr ∧
       ¬ S.InFree m e.paddr := by
-  obtain ⟨L, g⟩ := ginv_run ops s0 s L0 h0 hrun
+  obtain ⟨L, g, -⟩ := ginv_run ops s0 s L0 h0 t0 hrun
   exact g.safe
+
+/-- **The page table agrees with the devices, over ANY device implementation meeting the specification.** After every
+history that does not panic, the pages a device handed out and did not get back (its ghost list, for which the device
+invariant `Good` holds) are EXACTLY the mapped frames that `deviceIDByPAddr` assigns to it: nothing outstanding is
+unmapped (no page is lost to the allocator), nothing mapped has been given back. -/
+theorem driver_agrees_any_device {σ : Type} (I : Iface σ) (devs : List Dev) (S : Spec I devs)
+    (s0 s : GState σ) (L0 : Nat → List Nat) (ops : List DOp) (h0 : GInv S s0 L0) (t0 : Tight devs s0 L0 [])
+    (hrun : run I s0 ops = .ok s) :
+    ∃ L : Nat → List Nat, (∀ d m, s.mem[d]? = some m → S.Good d m (L d)) ∧
+      ∀ d p, p ∈ L d ↔ ∃ e ∈ s.pt, e.paddr = p ∧ devOf s.devs p = some d := by
+  obtain ⟨L, g, t⟩ := ginv_run ops s0 s L0 h0 t0 hrun
+  refine ⟨L, g.good, ?_⟩
+  intro d p
+  rw [g.hd]
+  exact tight_iff g t d p
+
+example : Tight (bdevsFrom 4096 [2, 2, 2]) (binit [2, 2, 2]) (fun _ => []) [] := tight_binit _
 
 /-- non-vacuity: the buddy devices of a driver meet the specification, initially (see `driver_no_alias_buddy`) -/
 example : GInv (BSpec 4096 [2, 2, 2]) (binit [2, 2, 2]) (fun _ => []) := ginv_binit _
@@ -64,7 +82,7 @@ theorem driver_no_alias_buddy (Fs : List Nat) (ops : List DOp) (s : GState Buddy
       Buddy.Accounted b (s.pt.map (·.paddr)) e.paddr) ∧
     (∀ (d : Nat) (b : Buddy.State), s.mem[d]? = some b →
       Buddy.FreeDisjoint b ∧ ∀ e ∈ s.pt, ¬ Buddy.InFreeBlock b e.paddr) := by
-  obtain ⟨L, g⟩ := ginv_run ops _ s _ (ginv_binit Fs) hrun
+  obtain ⟨L, g, -⟩ := ginv_run ops _ s _ (ginv_binit Fs) (tight_binit Fs) hrun
   have hsafe := g.safe
   refine ⟨g.nodup, ?_, ?_⟩
   · intro e he
@@ -118,6 +136,47 @@ example : exFrames (run buddyIface (binit [2, 2, 2]) exOps) =
     some ([(0x1000, 0x5000), (0x4000, 0x6000), (0x5000, 0xc000)],
           [[[0x1000], [], []], [[], [0x7000], []], [[], [0x9000], [0xb000]]]) := by
   decide +kernel
+
+example : ∃ s, run buddyIface (binit [2, 2, 2]) exOps = .ok s := by
+  have h : (exFrames (run buddyIface (binit [2, 2, 2]) exOps)).isSome = true := by decide +kernel
+  cases hr : run buddyIface (binit [2, 2, 2]) exOps with
+  | ok s => exact ⟨s, rfl⟩
+  | error e => rw [hr] at h; cases h
+
+/-- the mapped frames that `deviceIDByPAddr` assigns to device `d` -/
+def framesOn (s : GState Buddy.State) (d : Nat) : List Nat :=
+  (s.pt.map (·.paddr)).filter fun p => devOf s.devs p == some d
+
+/-- **Driver-level conservation on buddy devices.** After any history (as in `driver_no_alias_buddy`), for every device:
+the pages its buddy state tracks (`blockTracking`) are exactly the frames the page table maps on it — the page table
+agrees with the allocator —, and every page of the device lies EITHER inside a free block OR inside the allocated block
+(`levelOfBlock` of a counting tracker) of a frame that is mapped, never both: free blocks and the blocks of mapped
+frames partition the device; no page is lost, none is free while mapped. -/
+theorem driver_conservation_buddy (Fs : List Nat) (ops : List DOp) (s : GState Buddy.State)
+    (hrun : run buddyIface (binit Fs) ops = .ok s) (d : Nat) (b : Buddy.State) (hb : s.mem[d]? = some b) :
+    (∀ p, Buddy.Tracked b p ↔ ∃ e ∈ s.pt, e.paddr = p ∧ devOf s.devs p = some d) ∧
+    ∃ dv F, s.devs[d]? = some dv ∧ dv.size = 4096 * 2 ^ F ∧ b.base = dv.base ∧ ∀ j, j < 2 ^ F →
+      (Buddy.InFreeBlock b (dv.base + 4096 * j) ∨ Buddy.Accounted b (framesOn s d) (dv.base + 4096 * j)) ∧
+      ¬ (Buddy.InFreeBlock b (dv.base + 4096 * j) ∧ Buddy.Accounted b (framesOn s d) (dv.base + 4096 * j)) := by
+  obtain ⟨L, g, t⟩ := ginv_run ops _ s _ (ginv_binit Fs) (tight_binit Fs) hrun
+  have hg : BGood (bdevsFrom 4096 Fs) d b (L d) := g.good d b hb
+  obtain ⟨dv, F, hdv, hsz, hc, ht, -⟩ := hg
+  have hiff : ∀ p, Buddy.Tracked b p ↔ ∃ e ∈ s.pt, e.paddr = p ∧ devOf s.devs p = some d := by
+    intro p
+    rw [ht p, g.hd]
+    exact tight_iff g t d p
+  refine ⟨hiff, dv, F, by rw [g.hd]; exact hdv, hsz, hc.hbase, ?_⟩
+  intro j hj
+  refine Buddy.core_conservation hc ?_ j hj
+  intro p
+  rw [hiff p]
+  unfold framesOn
+  simp only [List.mem_filter, List.mem_map, beq_iff_eq]
+  constructor
+  · rintro ⟨e, he, hp, hd⟩
+    exact ⟨⟨e, he, hp⟩, hd⟩
+  · rintro ⟨⟨e, he, hp⟩, hd⟩
+    exact ⟨e, he, hp, hd⟩
 
 /-- the generic allocator code instantiated with the FIFO free list is the code of `C10.step` (sanity check on one
 history, not a proof: the proved tie of this layer is the one of `C10.step` itself): same page table, same free lists -/
